@@ -52,6 +52,8 @@ const (
 var (
 	progress       atomic.Int64
 	currentHistory atomic.Value
+	// the property this run is for: monitors of the other property do not stop a history
+	focusProp string
 )
 
 type genFunc func(r *run) string
@@ -73,6 +75,7 @@ func runHistory(t *testing.T, ops []string, drv *hx.Driver, gen genFunc, steps i
 	out.executed = []string{ops[0]}
 	synctest.Test(t, func(t *testing.T) {
 		r := newRun(t, ops[0], drv, &out)
+		r.focus = focusProp
 		defer r.w.ReleaseAll()
 		do := func(op string) {
 			progress.Add(1)
@@ -96,7 +99,15 @@ func runHistory(t *testing.T, ops []string, drv *hx.Driver, gen genFunc, steps i
 		}
 		r.epilogue()
 	})
+	promote(&out)
 	return
+}
+
+// promote: no monitor of the property in focus fired, but one of the other property did.
+func promote(out *outcome) {
+	if out.monitor == "" && out.otherMonitor != "" {
+		out.monitor, out.monitorProp, out.monitorSig, out.monitorClass = out.otherMonitor, out.otherProp, out.otherSig, out.otherClass
+	}
 }
 
 // epilogue: every request ends, every lease expires, nothing may be retained.
@@ -138,6 +149,7 @@ func TestHarness(t *testing.T) {
 	if prop == "" {
 		prop = "C18"
 	}
+	focusProp = prop
 
 	// watchdog: a mutation can make the real code block on a mutex, which
 	// synctest cannot see; report the history instead of hanging.
@@ -335,7 +347,7 @@ func TestHarness(t *testing.T) {
 		if i%2 == 1 {
 			version = "v40"
 		}
-		steps := 25 + rnd.Intn(70)
+		steps := 25 + rnd.Intn(90)
 		g := makeGen(rnd, version, prop)
 		out := runHistory(t, []string{version}, drv, g, steps)
 		account(&out)
@@ -368,6 +380,7 @@ func runExtended(t *testing.T, prefix []string, g genFunc, steps int) (out outco
 	out.executed = []string{prefix[0]}
 	synctest.Test(t, func(t *testing.T) {
 		r := newRun(t, prefix[0], nil, &out)
+		r.focus = focusProp
 		defer r.w.ReleaseAll()
 		for _, op := range prefix[1:] {
 			if out.monitor != "" || r.panicked {
@@ -384,6 +397,7 @@ func runExtended(t *testing.T, prefix []string, g genFunc, steps int) (out outco
 		}
 		r.epilogue()
 	})
+	promote(&out)
 	return
 }
 
